@@ -102,21 +102,86 @@ fn core_answer(line: &str, oligos: &Oligos) -> String {
     r.unwrap_or_else(|m| format!("panic:{}", m))
 }
 
-fn run_python(pymod: &str, cases: &[String], work: &str, tag: &str) -> (Vec<String>, Option<String>) {
-    let cf = format!("{}/c13_{}.cases", work, tag);
-    let of = format!("{}/c13_{}.out", work, tag);
-    std::fs::write(&cf, cases.join("\n") + "\n").unwrap();
-    let _ = std::fs::remove_file(&of);
-    let st = Command::new("python3").arg("/verif/py/run_c13.py").arg(pymod).arg(&cf).arg(&of).output();
-    let out: Vec<String> = std::fs::read_to_string(&of).unwrap_or_default().lines().map(|l| l.to_string()).collect();
-    let _ = std::fs::remove_file(&cf);
-    let _ = std::fs::remove_file(&of);
-    let crash = match st {
-        Ok(o) if o.status.success() => None,
-        Ok(o) => Some(format!("python exited with {:?}: {}", o.status.code(), trunc(&String::from_utf8_lossy(&o.stderr), 400))),
-        Err(e) => Some(format!("cannot start python3: {}", e)),
-    };
-    (out, crash)
+/// Runs the cases in one interpreter. Answers are flushed line by line, so when the interpreter dies, or stops answering
+/// (no new answer for `STALL` seconds: a call that neither returns nor raises, e.g. a GIL deadlock), the first case without an
+/// answer is the culprit; it is reported and the remaining cases run in a fresh interpreter (at most three restarts).
+fn run_python(pymod: &str, cases: &[String], work: &str, tag: &str) -> (Vec<String>, Vec<(usize, String)>) {
+    const STALL: u64 = 90;
+    let script = std::env::var("VERIF_PY").unwrap_or_else(|_| "/verif/py/run_c13.py".to_string());
+    let mut answers: Vec<String> = Vec::new();
+    let mut crashes: Vec<(usize, String)> = Vec::new();
+    while answers.len() < cases.len() && crashes.len() < 3 {
+        let start = answers.len();
+        let cf = format!("{}/c13_{}.cases", work, tag);
+        let of = format!("{}/c13_{}.out", work, tag);
+        let ef = format!("{}/c13_{}.err", work, tag);
+        std::fs::write(&cf, cases[start..].join("\n") + "\n").unwrap();
+        let _ = std::fs::remove_file(&of);
+        let errf = std::fs::File::create(&ef).unwrap();
+        let child = Command::new("python3").arg(&script).arg(pymod).arg(&cf).arg(&of).stderr(errf).stdout(std::process::Stdio::null()).spawn();
+        let mut why: Option<String> = None;
+        match child {
+            Err(e) => why = Some(format!("cannot start python3: {}", e)),
+            Ok(mut ch) => {
+                let mut last_len = 0u64;
+                let mut last_change = std::time::Instant::now();
+                loop {
+                    match ch.try_wait() {
+                        Ok(Some(st)) => {
+                            if !st.success() {
+                                let err = std::fs::read_to_string(&ef).unwrap_or_default();
+                                why = Some(format!("python exited with {:?}: {}", st.code(), trunc(&err, 400)));
+                            }
+                            break;
+                        }
+                        Ok(None) => {}
+                        Err(e) => {
+                            why = Some(format!("wait failed: {}", e));
+                            break;
+                        }
+                    }
+                    let len = std::fs::metadata(&of).map(|m| m.len()).unwrap_or(0);
+                    if len != last_len {
+                        last_len = len;
+                        last_change = std::time::Instant::now();
+                        crate::engine::progress(&format!("python answers so far: {} bytes", len));
+                    } else if last_change.elapsed().as_secs() >= STALL {
+                        let _ = ch.kill();
+                        let _ = ch.wait();
+                        why = Some(format!("no answer within {} s: the call neither returned nor raised (interpreter killed)", STALL));
+                        break;
+                    }
+                    std::thread::sleep(std::time::Duration::from_millis(100));
+                }
+            }
+        }
+        let text = std::fs::read_to_string(&of).unwrap_or_default();
+        let mut got: Vec<String> = text.lines().map(|l| l.to_string()).collect();
+        if !text.ends_with('\n') && !got.is_empty() {
+            got.pop(); // partially written answer
+        }
+        got.truncate(cases.len() - start);
+        answers.extend(got);
+        let _ = std::fs::remove_file(&cf);
+        let _ = std::fs::remove_file(&of);
+        let _ = std::fs::remove_file(&ef);
+        match why {
+            None => break,
+            Some(w) => {
+                if answers.len() < cases.len() {
+                    crashes.push((answers.len(), w));
+                    answers.push("missing".into());
+                } else {
+                    crashes.push((cases.len(), w));
+                    break;
+                }
+            }
+        }
+    }
+    while answers.len() < cases.len() {
+        answers.push("missing".into());
+    }
+    (answers, crashes)
 }
 
 pub fn run_c13(tier: &str, seed: u64, model: &Model, corpus_lines: Vec<String>, pymod: &str, work: &str) -> Report {
@@ -210,25 +275,20 @@ pub fn run_py(pid: &str, only: Option<&[&str]>, tier: &str, seed: u64, model: &M
         return rep;
     }
     // python side (one interpreter; on a crash bisect by halves to find the case)
-    let (mut py, crash) = run_python(pymod, &cases, work, &format!("{}", seed));
-    if let Some(why) = &crash {
-        // find the first case whose answer is missing
-        let idx = py.len();
-        rep.evaluations += idx as u64;
-        let culprit = cases.get(idx).cloned().unwrap_or_default();
+    let (py, crashes) = run_python(pymod, &cases, work, &format!("{}", seed));
+    for (idx, why) in &crashes {
+        let culprit = cases.get(*idx).cloned().unwrap_or_default();
+        rep.evaluations += 1;
         rep.push_fail(
             "python",
             format!("interpreter did not survive case {}: {}", idx, trunc(&culprit, 300)),
             culprit.clone(),
-            Fail { class: "spec", detail: format!("the Python interpreter crashed or the module could not be used: {}", why), theorem: "KT.py_never_crashes", impl_out: why.clone(), model_out: String::new() },
+            Fail { class: "spec", detail: format!("the Python interpreter crashed, hung, or the module could not be used: {}", why), theorem: "KT.py_never_crashes", impl_out: why.clone(), model_out: String::new() },
             0,
         );
-        while py.len() < cases.len() {
-            py.push("missing".into());
-        }
-        if idx == 0 {
-            return rep;
-        }
+    }
+    if crashes.iter().any(|(i, _)| *i == 0) && py.iter().all(|a| a == "missing") {
+        return rep;
     }
     // model side for the duplicated loops
     let mreqs: Vec<String> = cases.iter().map(|l| {
